@@ -19,8 +19,14 @@ use crate::world::*;
 
 pub const MAGIC: [u8; 4] = [0xd1, 0xd9, 0x3a, 0xaf];
 pub const GZ: [u8; 10] = [31, 139, 8, 0, 0, 0, 0, 0, 0, 255];
-pub const KINDS: &[&str] = &["torn_write", "bit_rot", "stale_tail", "lost_write", "marker_substitution", "zeroed_range", "duplicated_range", "multi_byte", "freeform"];
-pub const EXHAUSTIVE_KINDS: &[&str] = &["torn_write", "bit_rot", "stale_tail", "lost_write", "marker_substitution"];
+pub const KINDS: &[&str] = &["torn_write", "bit_rot", "stale_tail", "lost_write", "marker_substitution", "string_substitution", "json_mutation", "zeroed_range", "duplicated_range", "multi_byte", "freeform"];
+pub const EXHAUSTIVE_KINDS: &[&str] = &["torn_write", "bit_rot", "stale_tail", "lost_write", "marker_substitution", "string_substitution", "json_mutation"];
+/// Replacement contents for every stored string (well-formed msgpack, hostile or degenerate content).
+pub const STRING_DICT: &[&str] = &[
+    "", "a", "/", "//", "/a/", "*", "^", "|", "||", "{}", "[]", "null", "{\"selector\":[]}", "{\"selector\":[],\"action\":null}",
+    "{\"selector\":[{\"type\":\"css-selector\",\"arg\":\"\"}]}", "+js()", ",", "a, b, c", "x:99999999999999999999", ":", "\u{e9}", "\u{0}", "(", "[a-", "(?P<", "\\",
+    "aaaaaaaaaaaaaaaaaaaaaaaaaaaaaaaaaaaaaaaaaaaaaaaaaaaaaaaaaaaaaaaaaaaaaaaaaaaaaaaaaaaaaaaaaaaaaaaaaaaaaaaaaaaaaaaaaaaaaaaaaaaaaaaaaaaaaaaaaaaaaaaaaaaaaaaaaaaaaaaaaaaaaaaaaaaaaaaaaaaaaaaaaaaaaaaaaaaaaaaaaaaaaaaaaaaaaaaaaaaaaaaaaaaaaaaaaaaaaaaaaaaaaaaaaaaaaaaaaaaaaaaaaaaaaaaaaaaaaaaaaaaaaaaaaaaaaaaaaaaaaaaaaaaaaa",
+];
 pub const MARKERS: &[u8] = &[0xc0, 0xc2, 0xc3, 0xdb, 0xc6, 0xdd, 0xdf, 0xc9, 0xcf, 0xd3, 0xcb, 0x90, 0x80, 0xa0, 0xff, 0xc1, 0xda, 0xdc, 0xde, 0xc5];
 
 pub fn buffer_profile() -> Profile {
@@ -39,6 +45,7 @@ pub fn buffer_profile() -> Profile {
         tag_on_modifiers: false,
         extra: 0,
         tiny_patterns: true,
+        non_ascii_urls: false,
     }
 }
 
@@ -154,11 +161,138 @@ pub fn structural_offsets(buf: &[u8]) -> Vec<usize> {
     out
 }
 
+/// (offset, header length, content length) of every msgpack string value in the payload.
+pub fn string_values(buf: &[u8], offsets: &[usize]) -> Vec<(usize, usize, usize)> {
+    let mut out = vec![];
+    for &o in offsets {
+        let m = buf[o];
+        let (h, l) = match m {
+            0xa0..=0xbf => (1usize, (m & 0x1f) as usize),
+            0xd9 if o + 1 < buf.len() => (2, buf[o + 1] as usize),
+            0xda if o + 2 < buf.len() => (3, ((buf[o + 1] as usize) << 8) | buf[o + 2] as usize),
+            _ => continue,
+        };
+        if o + h + l <= buf.len() {
+            out.push((o, h, l));
+        }
+    }
+    out
+}
+
+fn encode_str(s: &[u8]) -> Vec<u8> {
+    let mut v = vec![];
+    let n = s.len();
+    if n < 32 {
+        v.push(0xa0 | n as u8);
+    } else if n < 256 {
+        v.push(0xd9);
+        v.push(n as u8);
+    } else {
+        v.push(0xda);
+        v.push((n >> 8) as u8);
+        v.push(n as u8);
+    }
+    v.extend_from_slice(s);
+    v
+}
+
+fn splice_string(buf: &[u8], sv: (usize, usize, usize), new: &[u8]) -> Vec<u8> {
+    let mut v = buf[..sv.0].to_vec();
+    v.extend_from_slice(&encode_str(new));
+    v.extend_from_slice(&buf[sv.0 + sv.1 + sv.2..]);
+    v
+}
+
+/// Well-formed but degenerate variants of a JSON text: arrays emptied, keys removed, values replaced.
+pub fn json_variants(text: &str) -> Vec<String> {
+    let v: serde_json::Value = match serde_json::from_str(text) {
+        Ok(v) => v,
+        Err(_) => return vec![],
+    };
+    fn paths(v: &serde_json::Value, cur: &mut Vec<String>, out: &mut Vec<Vec<String>>) {
+        out.push(cur.clone());
+        match v {
+            serde_json::Value::Object(m) => {
+                for (k, x) in m {
+                    cur.push(k.clone());
+                    paths(x, cur, out);
+                    cur.pop();
+                }
+            }
+            serde_json::Value::Array(a) => {
+                for (i, x) in a.iter().enumerate() {
+                    cur.push(i.to_string());
+                    paths(x, cur, out);
+                    cur.pop();
+                }
+            }
+            _ => {}
+        }
+    }
+    fn set(v: &mut serde_json::Value, path: &[String], new: Option<serde_json::Value>) {
+        if path.len() == 1 {
+            match v {
+                serde_json::Value::Object(m) => match new {
+                    Some(n) => {
+                        m.insert(path[0].clone(), n);
+                    }
+                    None => {
+                        m.remove(&path[0]);
+                    }
+                },
+                serde_json::Value::Array(a) => {
+                    if let Ok(i) = path[0].parse::<usize>() {
+                        if i < a.len() {
+                            match new {
+                                Some(n) => a[i] = n,
+                                None => {
+                                    a.remove(i);
+                                }
+                            }
+                        }
+                    }
+                }
+                _ => {}
+            }
+            return;
+        }
+        let next = match v {
+            serde_json::Value::Object(m) => m.get_mut(&path[0]),
+            serde_json::Value::Array(a) => path[0].parse::<usize>().ok().and_then(|i| a.get_mut(i)),
+            _ => None,
+        };
+        if let Some(n) = next {
+            set(n, &path[1..], new);
+        }
+    }
+    let mut ps = vec![];
+    paths(&v, &mut vec![], &mut ps);
+    let mut out = vec![];
+    use serde_json::json;
+    for p in ps.iter().filter(|p| !p.is_empty()).take(12) {
+        for new in [None, Some(json!(null)), Some(json!([])), Some(json!({})), Some(json!("")), Some(json!(0))] {
+            let mut c = v.clone();
+            set(&mut c, p, new);
+            if let Ok(t) = serde_json::to_string(&c) {
+                if t != text {
+                    out.push(t);
+                }
+            }
+        }
+    }
+    out.sort();
+    out.dedup();
+    out
+}
+
 /// The fault space of one (new image, old image) pair. `(kind, index)` identifies a case.
 pub struct FaultSpace {
     pub a: Vec<u8>,
     pub b: Vec<u8>,
     pub offsets: Vec<usize>,
+    pub strings: Vec<(usize, usize, usize)>,
+    /// (index into `strings`, mutated JSON text)
+    pub json_cases: Vec<(usize, String)>,
     pub seed: u64,
     pub n_sampled: u64,
 }
@@ -166,7 +300,19 @@ pub struct FaultSpace {
 impl FaultSpace {
     pub fn new(a: Vec<u8>, b: Vec<u8>, seed: u64, n_sampled: u64) -> Self {
         let offsets = structural_offsets(&a);
-        FaultSpace { a, b, offsets, seed, n_sampled }
+        let strings = string_values(&a, &offsets);
+        let mut json_cases = vec![];
+        for (i, sv) in strings.iter().enumerate() {
+            let body = &a[sv.0 + sv.1..sv.0 + sv.1 + sv.2];
+            if body.first() == Some(&b'{') {
+                if let Ok(t) = std::str::from_utf8(body) {
+                    for v in json_variants(t) {
+                        json_cases.push((i, v));
+                    }
+                }
+            }
+        }
+        FaultSpace { a, b, offsets, strings, json_cases, seed, n_sampled }
     }
     pub fn count(&self, kind: &str) -> u64 {
         match kind {
@@ -175,6 +321,8 @@ impl FaultSpace {
             "stale_tail" => self.a.len().min(self.b.len()).saturating_sub(1) as u64,
             "lost_write" => 1,
             "marker_substitution" => (self.offsets.len() * MARKERS.len()) as u64,
+            "string_substitution" => (self.strings.len() * STRING_DICT.len()) as u64,
+            "json_mutation" => self.json_cases.len() as u64,
             "zeroed_range" | "duplicated_range" | "multi_byte" => self.n_sampled,
             "freeform" => 24 + self.n_sampled / 4,
             _ => 0,
@@ -203,6 +351,14 @@ impl FaultSpace {
                 let mut v = a.clone();
                 v[off] = MARKERS[i % MARKERS.len()];
                 v
+            }
+            "string_substitution" => {
+                let sv = self.strings[i / STRING_DICT.len()];
+                splice_string(a, sv, STRING_DICT[i % STRING_DICT.len()].as_bytes())
+            }
+            "json_mutation" => {
+                let (si, t) = &self.json_cases[i];
+                splice_string(a, self.strings[*si], t.as_bytes())
             }
             "zeroed_range" => {
                 let mut v = a.clone();
